@@ -47,9 +47,6 @@ Lemma list_cmd_full E T text c steps c1 :
 Proof. intros Hp Hg. unfold list_cmd. rewrite Hp, Hg. simpl. destruct steps; reflexivity. Qed.
 
 (* ---------------------------------------------------------------- names *)
-Lemma interp_args_none_or_some E T : forall args c c1 l, interp_args E T c args = (c1, Some l) -> True.
-Proof. trivial. Qed.
-
 Lemma interp_steps_names E T : forall steps c c1 l,
   interp_steps E T c steps = (c1, Some l) -> names l = names steps /\ map ss_par l = map ss_par steps.
 Proof.
